@@ -1,7 +1,7 @@
 """C06 — note-length quantisation.  Deciding oracle: post-contract on the real
 AbsoluteSequence.quantise_note_lengths; driver supplies workloads and checks view agreement."""
 from vmon import gen
-from vmon.checks.common import obs, fail, both_views
+from vmon.checks.common import obs, fail, both_views, random_prefix, apply_prefix
 
 PROP = "C06"
 MONITORS = ["qnl"]
@@ -43,11 +43,13 @@ def make_case(rng, i, tier):
     spec = {"notes": notes, "extra": extra, "start": rng.choice(["abs", "rel", "both"])}
     if rng.random() < 0.3:
         spec["pad"] = rng.randrange(0, 220)
-    return {"seq": spec, "values": nv, "dne": rng.random() < 0.5, "style": style}
+    return {"seq": spec, "values": nv, "dne": rng.random() < 0.5, "style": style,
+            "prefix": random_prefix(rng, n=(1, 3)) if i % 4 == 3 else []}
 
 
 def run(case, ctx):
     s = gen.build_seq(case["seq"])
+    s = apply_prefix(s, case.get("prefix", []))
     before = obs(s)
     if case["values"] is None:
         s.quantise_note_lengths(do_not_extend=case["dne"])
